@@ -1,11 +1,11 @@
 #!/bin/bash
 # tools/confirm_seed.sh <ID> [features] — in the sub-agent's scratch worktree /tmp/seed/<ID>/wt confirm: (1) the existing suite
 # passes with the change (only mul_rk fails), (2) the demonstration fails with the change, (3) passes without it.
-ID="$1"; FEAT="${2:-}"; W=/tmp/seed/$ID/wt
+ID="$1"; FEAT="${2:-}"; SR="${SEEDROOT:-/tmp/seed}"; W=$SR/$ID/wt
 cd "$W" || exit 2
 export CARGO_NET_OFFLINE=true
-git diff -- src > /tmp/seed/$ID/patch.check.diff
-if ! diff -q /tmp/seed/$ID/patch.check.diff /tmp/seed/$ID/patch.diff >/dev/null; then echo "NOTE: worktree diff differs from patch.diff"; fi
+git diff -- src > $SR/$ID/patch.check.diff
+if ! diff -q $SR/$ID/patch.check.diff $SR/$ID/patch.diff >/dev/null; then echo "NOTE: worktree diff differs from patch.diff"; fi
 echo "== suite with change"; cargo test --workspace --no-fail-fast --offline 2>&1 | grep -E "^test result|^test .* FAILED" | grep -v seed_demo | head -8
 echo "== demo with change (must fail)"; cargo test --offline $FEAT --test seed_demo 2>&1 | grep -E "^test result|^test .*(FAILED|ok)$" | head -6
 git stash -q -- src
